@@ -59,6 +59,20 @@ pub struct History {
     pub family: &'static str,
     pub parsers: Vec<Allowed>,
     pub ops: Vec<(usize, Vec<u8>)>,
+    /// the application assigns a new set to the public `allowed_versions` field of a parser between
+    /// two calls: (index of the op it precedes, parser, new set)
+    pub reconf: Vec<(usize, usize, Allowed)>,
+}
+
+impl History {
+    /// apply the reassignments that precede op `i`
+    pub fn reconfigure(&self, i: usize, sut: &mut crate::ctx::Sut) {
+        for (at, p, a) in &self.reconf {
+            if *at == i && *p < sut.parsers.len() {
+                sut.set_allowed(*p, a);
+            }
+        }
+    }
 }
 
 pub fn hostile_history(rng: &mut Rng, pools: &Pools, corpus: &[Vec<Vec<u8>>]) -> History {
@@ -194,7 +208,29 @@ pub fn hostile_history(rng: &mut Rng, pools: &Pools, corpus: &[Vec<Vec<u8>>]) ->
             ops.push((rng.usize(np), b));
         }
     }
-    History { family, parsers, ops }
+    // one history in eight reassigns allowed_versions in mid-stream - often to a different set of
+    // the same size as the one in force
+    let mut reconf = vec![];
+    if ops.len() >= 2 && rng.chance(1, 8) {
+        for _ in 0..(1 + rng.usize(2)) {
+            let at = 1 + rng.usize(ops.len() - 1);
+            let p = rng.usize(np);
+            let a = match rng.below(4) {
+                0 => Allowed::Default,
+                1 => Allowed::Set(vec![*rng.pick(&[5u16, 7, 9, 10]), *rng.pick(&[5u16, 7, 9, 10, 11])]),
+                2 => {
+                    // four members like the default, one of them different
+                    let mut v = vec![5u16, 7, 9, 10];
+                    let i = rng.usize(4);
+                    v[i] = *rng.pick(&[0u16, 1, 8, 11, 255]);
+                    Allowed::Set(v)
+                }
+                _ => Allowed::gen(rng),
+            };
+            reconf.push((at, p, a));
+        }
+    }
+    History { family, parsers, ops, reconf }
 }
 
 pub fn make_parsers(h: &History) -> Vec<NetflowParser> {
